@@ -527,7 +527,7 @@ int parse_instruction_epiphany(AsmContext *asm_context, char *instr)
               operands[1].value == 0 &&
               operands[2].type == OPERAND_NUMBER)
           {
-            if (check_range(asm_context, "Immediate", operands[1].value, -2047, 2047) == -1) { return -1; }
+            if (check_range(asm_context, "Immediate", operands[2].value, -2047, 2047) == -1) { return -1; }
 
             if (operands[2].value < 0)
             {
